@@ -93,6 +93,7 @@ PROPS = {
         verus=[('u_dis', [r'^dict_to_dis$', r'^decode_str_from_value$', r'^DisReplacer::replace_append$', r'^first_dis_tag$', r'^dec_text$', r'^macro_text$'])],
         kani=[],
         witness='enum:dis',
+        enums_thorough=['enum:dis 200000'],
         design_ref='DESIGN.md section 4, C20',
         level_text=('Proof (Verus, every record, every localisation function, every default) on the real body of dict_to_dis: the display string is '
                     'taken from the first of dis, disMacro, disKey, name, def, tag, navName, id that the record has (first_dis_tag, written from the '
@@ -108,7 +109,7 @@ PROPS = {
                     'mutate what they capture).'),
         not_decided=('which substrings of a pattern are matches (the regular expression and regex::Regex::replace_all are trusted: '
                      'text outside matches is copied, each match is handed to the replacer once, left to right) -- hence "text without a $ is returned '
-                     'unchanged" and "substitution never panics" rest on the bounded enumerator enum:dis (768 records: every subset of the eight '
+                     'unchanged" and "substitution never panics" rest on the bounded enumerator enum:dis (400 seeded random records and patterns per run, 200 000 in the thorough tier, and 768 fixed records: every subset of the eight '
                      'display tags x Str / non-Str / Ref values against an oracle written from the precedence order, and 32 patterns incl. one-letter '
                      'tags, braces, localisation keys, unterminated and non-ASCII forms against the macro rules); Cow<str> is seen through the text it holds; '
                      'Dict::get is BTreeMap lookup.'),
